@@ -58,7 +58,9 @@ def set_obligations(sec, job, st, eng=None):
     O = []
     n = cfg['ndata']
     if cfg['ndims'] == 0: should = True
-    else: should = prod64(dims) == n
+    else:
+        should = simp(prod64(dims) == n)
+        if is_c(should): should = bool(should)
     if out == 0:
         # accepted: under the path condition the shape must be consistent
         bad = (not should) if type(should) is bool else z3.Not(should)
